@@ -56,6 +56,11 @@ type shape struct {
 	// twoBuses: two independent buses, each with one Sequential handler; the handler on the
 	// first bus waits (inside its body) until the handler on the second bus has run
 	twoBuses bool
+	// reversed: the subscription options are given in the opposite order (Sequential
+	// before Async); viaAny: the events are published through an interface-typed type
+	// parameter (PublishContext[any], routed by the dynamic type)
+	reversed bool
+	viaAny   bool
 }
 
 type inst struct {
@@ -121,9 +126,9 @@ func (in *inst) Body() {
 	if s.republish == 2 {
 		B.SubCustom(bus, func(gctx context.Context, id int) { pubWith(A, gctx, 100+id) }, nil, evt.SubOpts{Async: true, Ctx: true})
 	}
-	A.SubCustom(bus, mk(0), nil, evt.SubOpts{Sequential: true, Async: s.async, Ctx: s.ctx})
+	A.SubCustom(bus, mk(0), nil, evt.SubOpts{Sequential: true, Async: s.async, Ctx: s.ctx, Reversed: s.reversed})
 	if s.second {
-		A.SubCustom(bus, mk(1), nil, evt.SubOpts{Sequential: true, Async: s.async})
+		A.SubCustom(bus, mk(1), nil, evt.SubOpts{Sequential: true, Async: s.async, Reversed: s.reversed})
 	}
 	if s.plain {
 		A.SubCustom(bus, func(context.Context, int) {}, nil, evt.SubOpts{})
@@ -141,6 +146,8 @@ func (in *inst) Body() {
 				in.rec.Add("call", id, 0, "")
 				if s.cancelWaiter {
 					A.PubCtx(bus, ctxs[t], id)
+				} else if s.viaAny {
+					A.PubAny(bus, context.Background(), id)
 				} else {
 					A.Pub(bus, id)
 				}
@@ -375,6 +382,12 @@ func shapes(thorough bool) []shape {
 		{name: "sync/3publishers-context-cancelled-while-waiting", cancelWaiter: true, pubs: []int{1, 1, 1}},
 		{name: "sync-ctx/2x2-context-cancelled-while-waiting", ctx: true, cancelWaiter: true, pubs: []int{2, 2}},
 		{name: "async/3publishers-context-cancelled-while-queued", async: true, cancelWaiter: true, pubs: []int{1, 1, 1}},
+		{name: "async/options-in-reverse-order/one-publisher-3", async: true, reversed: true, pubs: []int{3}},
+		{name: "async/options-in-reverse-order/two-publishers", async: true, reversed: true, pubs: []int{2, 1}},
+		{name: "sync/options-in-reverse-order/2publishers", reversed: true, pubs: []int{1, 1}},
+		{name: "sync/published-through-any/3publishers", viaAny: true, pubs: []int{1, 1, 1}},
+		{name: "sync-ctx/published-through-any/2x2", viaAny: true, ctx: true, pubs: []int{2, 2}},
+		{name: "async/published-through-any/two-publishers", viaAny: true, async: true, pubs: []int{2, 1}},
 		{name: "sync/sequential-handler-publishes-to-another-sequential-handler", nestedSeq: true, pubs: []int{0}},
 		{name: "async/sequential-handler-publishes-to-another-sequential-handler", nestedSeq: true, async: true, pubs: []int{0}},
 		{name: "sync/sequential-handlers-on-two-buses-one-waits-for-the-other", twoBuses: true, pubs: []int{0}},
